@@ -101,16 +101,17 @@ theorem alookup_encodeKids (n : String) : ∀ (kids : List Tree) (c : Tree), fin
     · next hne => simp only [hne, if_false]; exact alookup_encodeKids n ts c h
 
 theorem kidsWF_findKid (n : String) : ∀ (kids : List Tree) (taken : List String) (c : Tree),
-    kidsWF CT DT taken kids = true → findKid n kids = some c → c.wf CT DT = true ∧ n ∉ taken
+    kidsWF CT DT taken kids = true → findKid n kids = some c →
+    c.wf CT DT = true ∧ n ∉ taken ∧ DT.contains c.info.gtype = true
   | [], _, c, _, h => by simp [findKid] at h
   | t :: ts, taken, c, hw, h => by
     simp only [kidsWF, Bool.and_eq_true, Bool.not_eq_true', List.contains_eq_mem, decide_eq_false_iff_not] at hw
-    obtain ⟨⟨⟨hf, _⟩, hwf⟩, hr⟩ := hw
+    obtain ⟨⟨⟨hf, hd⟩, hwf⟩, hr⟩ := hw
     simp only [findKid] at h
     split at h
-    · next heq => cases h; exact ⟨hwf, heq ▸ hf⟩
+    · next heq => cases h; exact ⟨hwf, heq ▸ hf, by simpa using hd⟩
     · have := kidsWF_findKid n ts (t.name :: taken) c hr h
-      exact ⟨this.1, fun hm => this.2 (List.mem_cons_of_mem _ hm)⟩
+      exact ⟨this.1, fun hm => this.2.1 (List.mem_cons_of_mem _ hm), this.2.2⟩
 
 /-- in the file, the node at tree path `p` is the group at `p` below the tree's own group, i.e. at
     /<root name>/<p>, and it carries the node's group type and class -/
@@ -124,7 +125,7 @@ theorem C01_node_at : ∀ (p : List String) (t d : Tree), t.wf CT DT = true → 
     | none => simp [hf] at h
     | some c =>
       simp only [hf] at h
-      obtain ⟨hcw, hnt⟩ := kidsWF_findKid n kids (akeys i.body) c hw.2 hf
+      obtain ⟨hcw, hnt, _⟩ := kidsWF_findKid n kids (akeys i.body) c hw.2 hf
       have hnb : alookup n i.body = none := alookup_none_of_not_mem n i.body hnt
       simp only [encode, Obj.at, Obj.kids, alookup_append, hnb, alookup_encodeKids n kids c hf]
       exact C01_node_at q c d hcw h
